@@ -17,7 +17,7 @@ def _adt_for(sort):
 
 class Lemma:
     def __init__(self, name, vars, stmt, ind=None, triggers=None, uses=(), companions=(), ih_extra=None, doc='',
-                 nonind=False, split_depth=0, hints=(), rewrite=False, trusted=False):
+                 nonind=False, split_depth=0, hints=(), rewrite=False, trusted=False, int_ind=None):
         self.name = name
         self.vars = vars
         self.stmt = stmt
@@ -31,6 +31,7 @@ class Lemma:
         self.split_depth = split_depth
         self.rewrite = rewrite       # an unconditional equation lhs == rhs used left-to-right by the normaliser
         self.hints = list(hints)     # explicit instances: (lemma name, [terms])
+        self.int_ind = int_ind       # strong induction on a natural number: callable(n, vars) -> list of (smaller term m, [extra substitutions])
         self.trusted = trusted       # an axiom of the trusted base (textbook meta-theory): never proved here, always reported
         self.proved = None
 
@@ -150,6 +151,18 @@ def prove_lemma(lm, library, seed=0):
     results = []
     if lm.trusted:
         lm.proved = True
+        return results
+    if lm.int_ind is not None:
+        # well-founded induction on n >= 0: hypotheses are instances at explicitly given smaller naturals m (0 <= m < n is proved)
+        n = lm.ind
+        hy = []
+        side = []
+        for m, subs in lm.int_ind(n, lm.vars):
+            hy.append(z3.Implies(z3.And(m >= 0, m < n), z3.substitute(lm.stmt, (n, m), *subs)))
+        hy += [library[h].inst(*ts) for h, ts in lm.hints]
+        v = solve.prove(hy + [n >= 0], lm.stmt, seed=seed, lemmas=[library[u] for u in lm.uses], split_depth=max(1, lm.split_depth))
+        results.append((f'lemma:{lm.name}/strong-induction', v))
+        lm.proved = v.status == 'proved'
         return results
     if lm.nonind:
         goal = lm.stmt
